@@ -287,6 +287,27 @@ func init() {
 					}
 				}
 			}
+			// null in place of every mapping, of an element of every list of mappings, and of every leaf ("key:" followed by
+			// nothing, "-" alone): read as absent or refused with an error - never a crash
+			for _, lv := range levels {
+				if len(lv.Path) == 0 {
+					continue
+				}
+				if !yield(C16Case{Part: "null", Path: lv.Path}) {
+					return
+				}
+				if lv.Path[len(lv.Path)-1] == "[]" {
+					// a null element next to a proper one
+					if !yield(C16Case{Part: "null", Path: lv.Path, Kind: "second"}) {
+						return
+					}
+				}
+			}
+			for _, lf := range leaves {
+				if !yield(C16Case{Part: "null", Path: lf.Path, Kind: "leaf"}) {
+					return
+				}
+			}
 			// large documents: the tail of a document of 1.2 / 5 (thorough: 20) MiB is read like its head
 			sizes := []uint{1200 << 10, 5 << 20}
 			if env.Thorough() {
@@ -430,6 +451,48 @@ func checkC16(env *engine.Env, ci any) engine.Outcome {
 		out.Violations = append(out.Violations, engine.Violation{Sig: sig, Detail: fmt.Sprintf(format, a...)})
 	}
 	switch c.Part {
+	case "null":
+		d := docWith(c16Base(), c.Path, nil)
+		if c.Kind == "second" {
+			// [ {}, null ]: a null element after a proper one
+			d = docWith(c16Base(), append(append([]string{}, c.Path...), "zz"), "x")
+			removeDeep(d, append(append([]string{}, c.Path...), "zz"))
+			if !appendDeep(d, c.Path[:len(c.Path)-1], nil) {
+				out.HarnessError = "cannot append a null element at " + pathKey(c.Path)
+				return out
+			}
+		}
+		text := fixture.Doc(d).YAML()
+		out.Key = "null:" + pathKey(c.Path) + ":" + c.Kind
+		for name, perr := range parseEntryPoints(env, text) {
+			out.Transitions++
+			if perr != nil && strings.Contains(perr.Error(), "PANIC") {
+				viol("parse:panic:null:"+pathKey(c.Path), "through %s: %v\n%s", name, perr, text)
+			}
+		}
+		cfg, perr := parseYAML(text, nil)
+		if perr != nil {
+			if strings.Contains(perr.Error(), "PANIC") {
+				viol("parse:panic:null:"+pathKey(c.Path), "a document with null at %s crashes the parser: %v\n%s", pathKey(c.Path), perr, text)
+			}
+			return out
+		}
+		// accepted: the configuration can be validated and asked for every format's settings without a crash
+		func() {
+			defer func() {
+				if r := recover(); r != nil {
+					viol("parse:panic-after-parse:null:"+pathKey(c.Path), "a document with null at %s is accepted, then Validate crashes: %v\n%s", pathKey(c.Path), r, text)
+				}
+			}()
+			_ = cfg.Validate()
+		}()
+		for _, f := range Formats {
+			if _, gerr := safeGet(&cfg, f); gerr != nil && strings.Contains(gerr.Error(), "PANIC") {
+				viol("parse:panic-after-parse:null:"+pathKey(c.Path), "a document with null at %s is accepted, then Get(%s) crashes: %v\n%s", pathKey(c.Path), f, gerr, text)
+			}
+			out.Transitions++
+		}
+		return out
 	case "large-doc":
 		checkC16Large(env, c, &out, viol)
 		return out
@@ -768,34 +831,45 @@ func removeDeep(m map[string]any, path []string) {
 // parseEntryPoints parses text through every public entry point of the parser.
 func parseEntryPoints(env *engine.Env, text string) map[string]error {
 	res := map[string]error{}
-	_, res["Parse"] = nfpm.Parse(strings.NewReader(text))
+	res["Parse"] = safeParse(func() (nfpm.Config, error) { return nfpm.Parse(strings.NewReader(text)) })
 	p := filepath.Join(env.Scratch, "c16-entry.yaml")
 	os.WriteFile(p, []byte(text), 0o644)
 	defer os.Remove(p)
-	_, res["ParseFile"] = nfpm.ParseFile(p)
-	_, res["ParseFileWithEnvMapping"] = nfpm.ParseFileWithEnvMapping(p, noEnv)
+	res["ParseFile"] = safeParse(func() (nfpm.Config, error) { return nfpm.ParseFile(p) })
+	res["ParseFileWithEnvMapping"] = safeParse(func() (nfpm.Config, error) { return nfpm.ParseFileWithEnvMapping(p, noEnv) })
 	// the name of the file says nothing about how it is read
 	for _, ext := range []string{".yml", ".json", ".conf", ""} {
 		q := filepath.Join(env.Scratch, "c16-entry-other"+ext)
 		os.WriteFile(q, []byte(text), 0o644)
-		_, res["ParseFile(name"+ext+")"] = nfpm.ParseFile(q)
+		res["ParseFile(name"+ext+")"] = safeParse(func() (nfpm.Config, error) { return nfpm.ParseFile(q) })
 		os.Remove(q)
 	}
 	if js, jerr := respellText(text, "json"); jerr == nil && !strings.Contains(text, "<<") && !strings.Contains(text, "? ") && !strings.Contains(text, "!!") {
 		q := filepath.Join(env.Scratch, "c16-entry-flow.json")
 		os.WriteFile(q, []byte(js), 0o644)
-		_, res["ParseFile(flow style, name.json)"] = nfpm.ParseFile(q)
-		_, res["Parse(flow style)"] = nfpm.Parse(strings.NewReader(js))
+		res["ParseFile(flow style, name.json)"] = safeParse(func() (nfpm.Config, error) { return nfpm.ParseFile(q) })
+		res["Parse(flow style)"] = safeParse(func() (nfpm.Config, error) { return nfpm.Parse(strings.NewReader(js)) })
 		os.Remove(q)
 	}
 	if f, err := os.Open(p); err == nil {
 		old := os.Stdin
 		os.Stdin = f
-		_, res["ParseFile(-)"] = nfpm.ParseFile("-")
+		res["ParseFile(-)"] = safeParse(func() (nfpm.Config, error) { return nfpm.ParseFile("-") })
 		os.Stdin = old
 		f.Close()
 	}
 	return res
+}
+
+// safeParse runs one parser entry point; a panic inside it is reported as that call's error ("PANIC ...").
+func safeParse(f func() (nfpm.Config, error)) (err error) {
+	defer func() {
+		if r := recover(); r != nil {
+			err = fmt.Errorf("PANIC in the parser: %v", r)
+		}
+	}()
+	_, err = f()
+	return err
 }
 
 // respell rewrites the line "<key>: x" of a rendered document in another YAML spelling of the same mapping key.
@@ -1095,4 +1169,36 @@ func checkC16Large(env *engine.Env, c C16Case, out *engine.Outcome, viol func(st
 			viol("parse:large-doc-truncated:"+c.Kind, "%s: of %d %s items %d arrived, the last one %q (want %q)", name, n, c.Kind, got, last, wantLast)
 		}
 	}
+}
+
+// appendDeep appends value to the list found at the key path (which may pass through list elements: the first one).
+func appendDeep(m map[string]any, path []string, value any) bool {
+	cur := any(m)
+	for i, k := range path {
+		if k == "{fmt}" {
+			k = overrideKey
+		}
+		if k == "[]" {
+			l, ok := cur.([]any)
+			if !ok || len(l) == 0 {
+				return false
+			}
+			cur = l[0]
+			continue
+		}
+		mm, ok := cur.(map[string]any)
+		if !ok {
+			return false
+		}
+		if i == len(path)-1 {
+			l, ok := mm[k].([]any)
+			if !ok {
+				return false
+			}
+			mm[k] = append(l, value)
+			return true
+		}
+		cur = mm[k]
+	}
+	return false
 }
